@@ -117,9 +117,13 @@ func cmdWorker(args []string) int {
 		dl = time.Unix(*deadline, 0)
 	}
 	var outs []engine.Output
-	for _, sc := range c.Scenarios(*tier) {
+	scs := c.Scenarios(*tier)
+	for i, sc := range scs {
+		// the time budget is shared fairly: every scenario gets an equal part of what is left, so a big scenario that
+		// hits its cap (reported as exhaustive:false with the depth completed) cannot starve the ones after it
+		sdl := time.Now().Add(time.Until(dl) / time.Duration(len(scs)-i))
 		w := world.New(sc.Cfg)
-		ex := engine.NewExplorer(w, sc, *shard, *of, *out, dl)
+		ex := engine.NewExplorer(w, sc, *shard, *of, *out, sdl)
 		ex.ConfWant = 1
 		if *tier == "thorough" {
 			ex.ConfWant = 3
